@@ -1,5 +1,6 @@
 """C08 — Resolver.glob: sanitised anchored patterns, transparent cache, relax discipline."""
 
+from ..model import AnalysisError
 from ..lint_identity import lint_program
 from . import resolver_rules as R
 from .common import typer_for
@@ -66,3 +67,5 @@ def run(ctx):
     ctx.floor("R1", 2)
     ctx.floor("R2", 8)
     ctx.extra["functions_reachable_from_glob"] = [f.qual for f in funcs]
+    if ctx.extra.get("undecided") and not ctx.new_findings():
+        raise AnalysisError("; ".join(ctx.extra["undecided"][:2]))
